@@ -53,6 +53,14 @@ func C15(run *vf.Run) {
 		Open  bool      `json:"open"`
 	}
 	var wide []wideRow
+	type capRow struct {
+		Op   string      `json:"op"`
+		Arg  eng.Bytes   `json:"arg"`
+		In   eng.Bytes   `json:"in"`
+		TX   []eng.Bytes `json:"tx"`
+		Used int         `json:"used"`
+	}
+	var caps []capRow
 	var mu sync.Mutex
 	res, err := vf.RunTLC(vf.TLCOpts{Module: "Operators_MC", CfgText: fmt.Sprintf("SPECIFICATION Spec\nCONSTANTS\n  Alphabet = {97, 65, 98, 32, 37, 49, 45, 195, 169, 255, 50, 239, 191, 189}\n  MaxLen = %d\nINVARIANTS ContainsReflexive EqIsGeAndLe FullRangeNeverViolated WideAgreesWithNarrow WideTrichotomy Emit\n", maxLen),
 		Workers: 8, Timeout: vf.Pick(run, 10*time.Minute, 60*time.Minute),
@@ -71,6 +79,10 @@ func C15(run *vf.Run) {
 				_ = json.Unmarshal(c, &wide)
 				return
 			}
+			if c, ok := probe["cap"]; ok {
+				_ = json.Unmarshal(c, &caps)
+				return
+			}
 			var r row
 			if json.Unmarshal(raw, &r) == nil {
 				rows = append(rows, r)
@@ -82,7 +94,7 @@ func C15(run *vf.Run) {
 	}
 	run.AddTLC(res)
 	run.Logf("Operators_MC: %s; %d rows", res.Describe(), len(rows))
-	if res.Violated != "" || !res.OK() || len(rows) == 0 || len(cidr) != 256 || len(wide) == 0 {
+	if res.Violated != "" || !res.OK() || len(rows) == 0 || len(cidr) != 256 || len(wide) == 0 || len(caps) == 0 {
 		run.Inconclusive("Operators_MC: TLC did not complete cleanly: %s (cidr rows %d)\n%s", res.Describe(), len(cidr), res.ErrorText)
 		return
 	}
@@ -288,6 +300,49 @@ func C15(run *vf.Run) {
 		}
 	}
 	c15RuleLevel(run, report)
+	// the capture table of the specification: n groups / n phrases found, TX.0-9 as CaptureTX says
+	for _, c := range caps {
+		var sb strings.Builder
+		// an earlier capturing rule fills TX.0-9, so a text that is not stored shows as a stale value
+		sb.WriteString("SecRuleEngine On\nSecRule REQUEST_HEADERS:x-w \"@rx (0)(1)(2)(3)(4)(5)(6)(7)(8)\" \"id:9,phase:1,pass,capture\"\n")
+		fmt.Fprintf(&sb, "SecRule REQUEST_HEADERS:x-v \"@%s %s\" \"id:1,phase:1,pass,capture", c.Op, string(c.Arg))
+		for i := 0; i < c.Used; i++ {
+			fmt.Fprintf(&sb, ",setvar:'tx.c%d=%%{tx.%d}'", i, i)
+		}
+		sb.WriteString("\"\n")
+		w, err := coraza.NewWAF(coraza.NewWAFConfig().WithDirectives(sb.String()))
+		if err != nil {
+			run.Inconclusive("capture table: probe rejected: %v\n%s", err, sb.String())
+			continue
+		}
+		tx := w.NewTransaction()
+		tx.AddRequestHeader("X-W", "012345678")
+		tx.AddRequestHeader("X-V", string(c.In))
+		tx.ProcessRequestHeaders()
+		fired := false
+		for _, mr := range tx.MatchedRules() {
+			if mr.Rule().ID() == 1 {
+				fired = true
+			}
+		}
+		vars := tx.(plugintypes.TransactionState).Variables().TX()
+		if !fired {
+			report("capture-rule-silent", c.Op, string(c.Arg), c.In, "the capturing rule did not fire on an input that contains every group / phrase")
+		} else {
+			for i := 0; i < c.Used; i++ {
+				got := ""
+				if g := vars.Get(fmt.Sprintf("c%d", i)); len(g) > 0 {
+					got = g[0]
+				}
+				if got != string(c.TX[i]) {
+					report("capture-differs", c.Op, string(c.Arg), c.In, fmt.Sprintf("TX.%d copied out by setvar is %q, text %d of the match is %q (%d texts in the match)", i, got, i, string(c.TX[i]), len(c.TX)))
+				}
+			}
+		}
+		run.Eval("captab-" + c.Op + string(c.Arg))
+		tx.Close()
+		closeAny(w)
+	}
 }
 
 // c15RuleLevel: negation yields the exact complement, capturing operators store the matched texts
